@@ -580,8 +580,8 @@ func c07emit(w *bufio.Writer, class string, serial uint32, cfgs []string, lines 
 	w.WriteByte('\n')
 }
 
-// configurations for a file whose compilation yields nRecords records (an estimate is enough: it is
-// only used to keep BatchNumParallel=0 away from the configurations that block for ever, see report)
+// configurations for a file whose compilation yields nRecords records (an estimate is enough: it
+// only keeps tiny batch sizes away from big inputs)
 func c07cfgs(class string, nRecords int, big bool, rejected bool, idx int, tier string) []string {
 	if class == "cdb" {
 		if big {
@@ -591,9 +591,9 @@ func c07cfgs(class string, nRecords int, big bool, rejected bool, idx int, tier 
 	}
 	if big {
 		if tier == "thorough" {
-			return []string{"B1", "B8", "B0", "B2", "b1000.4.8", "b0.1.1", "b7.4.2", "b30000.2.0", "b999.1.8"}
+			return []string{"B1", "B8", "B0", "B2", "b1000.4.8", "b0.1.1", "b7.4.2", "b30000.2.0", "b999.1.8", "b1000.0.4"}
 		}
-		return []string{"B1", "B8", "B0", "b1000.4.8", "b0.1.1", "b500.4.2", "b30000.2.0"}
+		return []string{"B1", "B8", "B0", "b1000.4.8", "b0.1.1", "b500.4.2", "b30000.0.2"}
 	}
 	// every builder run allocates room for 2*10^7 entries (seconds of page faults): one or two per file
 	cfgs := []string{[]string{"B1", "B8", "B2", "B0"}[idx%4]}
@@ -608,12 +608,10 @@ func c07cfgs(class string, nRecords int, big bool, rejected bool, idx int, tier 
 		cfgs = append(cfgs, "b7.1.1", "b7.4.8", "b7.4.1")
 	}
 	cfgs = append(cfgs, "b1000.1.1", "b1000.4.8", "b1000.1.8", "b0.1.1", "b0.4.8")
-	// BatchNumParallel = 0 only where no batch ever fills up
-	if !rejected {
-		if nRecords < 1000 {
-			cfgs = append(cfgs, "b1000.0.1", "b1000.0.8")
-		}
-		cfgs = append(cfgs, "b0.0.2")
+	// BatchNumParallel = 0 (unlimited; blocked for ever before the repair as soon as a batch was full)
+	cfgs = append(cfgs, []string{"b1000.0.8", "b0.0.2", "b1000.0.1"}[idx%3])
+	if nRecords <= 3000 {
+		cfgs = append(cfgs, "b7.0.2")
 	}
 	return cfgs
 }
